@@ -48,10 +48,12 @@ pub fn cases_c14(tier: &str, seed: u64) -> Vec<Case> {
             }
             let mask: Vec<bool> = (0..n).map(|p| p != 1 || n == 3).collect();
             let inputs: Vec<u64> = (0..n as u64).map(|p| (seed + 13 * p + 7 * pi as u64) % 256).collect();
-            let strat = Strategy::Script(vec![]);
+            for late in [false, true] {
+            // late = the followers receive the leader's validate before their own schedule is submitted
+            let strat = if late { Strategy::RpcFirst(leader) } else { Strategy::Script(vec![]) };
             let base = base_scenario(prog, leader, &mask, &inputs, strat.clone(), 0x14000 + pi as u128);
-            let steps = pilot_steps(&base);
-            let stride = if thorough { 1 } else if n == 2 { 2 } else { 5 };
+            let steps = if late { pilot_steps(&base).min(2 * n + 4) } else { pilot_steps(&base) };
+            let stride = if thorough || late { 1 } else if n == 2 { 2 } else { 5 };
             for k in (0..=steps).filter(|k| k % stride == (seed as usize) % stride || *k < 6) {
                 for party in 0..n {
                     let mut injs: Vec<Inject> = vec![
@@ -70,7 +72,10 @@ pub fn cases_c14(tier: &str, seed: u64) -> Vec<Case> {
                         injs.push(Inject::MpcMsg { comp: 0, party, from: (party + 1) % n });
                         injs.push(Inject::MpcMsg { comp: 0, party, from: party });
                     }
-                    if !thorough {
+                    if late {
+                        injs.truncate(4);
+                    }
+                    if !thorough && !late {
                         // quick: rotate through the kinds instead of taking all of them at every point
                         let keep = (k + party + seed as usize) % 3;
                         injs = injs.into_iter().enumerate().filter(|(i, _)| i % 3 == keep || (k == 0 && *i >= 10)).map(|(_, x)| x).collect();
@@ -78,9 +83,10 @@ pub fn cases_c14(tier: &str, seed: u64) -> Vec<Case> {
                     for inj in injs {
                         let mut sc = base.clone();
                         sc.injections = vec![(When::Step(k), inj.clone())];
-                        v.push(Case { prop: "C14", key: format!("{} L{} step{} p{} {}", prog.name, leader, k, party, inj_name(&inj)), sc, progs: vec![(*prog).clone()], inputs: vec![inputs.clone()], out_masks: vec![mask.clone()], leaders: vec![leader], mismatch: None, mt: None });
+                        v.push(Case { prop: "C14", key: format!("{} L{} {}step{} p{} {}", prog.name, leader, if late { "late-followers " } else { "" }, k, party, inj_name(&inj)), sc, progs: vec![(*prog).clone()], inputs: vec![inputs.clone()], out_masks: vec![mask.clone()], leaders: vec![leader], mismatch: None, mt: None });
                     }
                 }
+            }
             }
         }
     }
